@@ -26,8 +26,8 @@ Accepts == {-1} \cup 0..MaxContent
 
 ConsumerCfgs(codec, sc) ==
   { [codec |-> codec, sc |-> sc, content |-> Blob(sc.content), term |-> sc.term, rkind |-> rk, closeOpt |-> co,
-     dst |-> d, pre |-> pre, wacc |-> wa, uerr |-> ue] :
-       rk \in {"reader", "readcloser", "nil"}, co \in (IF codec = "bytes" THEN BOOLEAN ELSE {FALSE}),
+     dst |-> d, pre |-> pre, wacc |-> wa, uerr |-> ue, ekind |-> ek] :
+       ek \in (IF sc.term = "err" THEN ErrKinds ELSE {"none"}), rk \in {"reader", "readcloser", "nil"}, co \in (IF codec = "bytes" THEN BOOLEAN ELSE {FALSE}),
        d \in (IF codec = "bytes" THEN BytesDst ELSE TextDst), pre \in BOOLEAN, wa \in Accepts, ue \in BOOLEAN }
 
 \* drop parameter values that do not matter for the destination kind
@@ -36,11 +36,12 @@ ConsumerRelevant(c) ==
   /\ (c.dst \notin {"binunm", "textunm"} => ~c.uerr)
   /\ (PreOf([c EXCEPT !.pre = TRUE]) = <<>> => ~c.pre)
   /\ (c.rkind = "nil" => c.sc = Plain(0))
+  /\ (c.ekind \notin {"none", "custom"} => c.rkind # "nil" /\ c.wacc = -1 /\ ~c.uerr /\ ~c.pre)   \* identity matters for the read fault only
 
 ProducerCfgs(codec, sc) ==
   { [codec |-> codec, sc |-> sc, content |-> Blob(sc.content), term |-> sc.term, src |-> sk, wkind |-> wk, closeOpt |-> co,
-     wacc |-> wa, merr |-> me] :
-       sk \in (IF codec = "bytes" THEN BytesSrc ELSE TextSrc),
+     wacc |-> wa, merr |-> me, ekind |-> ek] :
+       ek \in (IF sc.term = "err" THEN ErrKinds ELSE {"none"}), sk \in (IF codec = "bytes" THEN BytesSrc ELSE TextSrc),
        wk \in {"writer", "writecloser", "nil"}, co \in (IF codec = "bytes" THEN BOOLEAN ELSE {FALSE}),
        wa \in Accepts, me \in BOOLEAN }
 
@@ -49,6 +50,7 @@ ProducerRelevant(p) ==
   /\ (p.src \notin {"binm", "textm"} => ~p.merr)
   /\ (p.src \in {"nil", "nilpstring", "nilpbytes", "nilpstruct"} => p.sc = Plain(0))
   /\ (p.wkind = "nil" => p.wacc = -1)
+  /\ (p.ekind \notin {"none", "custom"} => p.src \in {"reader", "readcloser"} /\ p.wkind # "nil" /\ p.wacc = -1)
   \* the harness' WriterTo does not deliver data together with its error
   /\ (p.src \in {"writerto", "wtreader", "wtreadcloser"} => ~p.sc.withData)
 
